@@ -29,6 +29,8 @@ func init() {
 		switch k {
 		case 'R':
 			return "race-stress"
+		case 'C':
+			return "cold-start"
 		case 'B':
 			return "stress"
 		}
@@ -391,6 +393,8 @@ func execCase(kind byte, body []byte) *core.Verdict {
 		return stress(body)
 	case 'R':
 		return raceRun(body)
+	case 'C':
+		return coldRun(body)
 	}
 	return &core.Verdict{Infra: "unknown request"}
 }
@@ -589,6 +593,80 @@ func raceRun(body []byte) *core.Verdict {
 	return v
 }
 
+// coldRun is the first (and only) thing its process executes, under the race detector: independent pipelines on
+// private module sets released together, so that whatever the library sets up on first use (tables filled lazily,
+// caches) is set up by several goroutines at once.  Each set holds other statement kinds; afterwards every set is
+// built once more, sequentially, and must read the same.
+func coldRun(body []byte) *core.Verdict {
+	var q struct {
+		Seed int64
+		Tid  int
+	}
+	json.Unmarshal(body, &q)
+	rng := rand.New(rand.NewSource(q.Seed*13 + int64(q.Tid)))
+	groups := [][]string{
+		{"t2"},               // typedef, grouping, uses, choice, rpc / input, leaf
+		{"i1", "t2", "a3"},   // identities, augment, deviation
+		{"m4", "s4"},         // include, submodule
+		{"tgt", "dvok"},      // leaf-list, rpc output, augment with a choice, deviations
+		{"idb", "idm"},       // identities with several bases, identityref typedef
+		{"e5"},               // errors found while resolving
+		{"bb-r1", "ib"},      // imported grouping and typedef, union
+		{"m6", "s6a", "s6b"}, // nested includes
+		{"cold-kinds"},       // notification, anyxml, anydata, action, list, case, must / when
+	}
+	texts := func(id string) string {
+		if id == "cold-kinds" {
+			return `module ck { yang-version 1.1; namespace "urn:ck"; prefix ck;
+  notification n { leaf nl { type string; } }
+  anyxml ax; anydata ad;
+  container c { must "a"; when "b"; action act { input { leaf ai { type string; } } output { leaf ao { type string; } } }
+    list li { key k; leaf k { type string; } unique k; leaf-list ll { type string; ordered-by user; } }
+    choice ch { case ca { leaf cl { type empty; } } } }
+  feature f; extension e { argument a; } ck:e "x";
+}`
+		}
+		return session.Texts[id]
+	}
+	build := func(g []string) string {
+		ms := yang.NewModules()
+		for _, id := range g {
+			if err := ms.Parse(texts(id), id+".yang"); err != nil {
+				return "load of " + id + " failed: " + err.Error()
+			}
+		}
+		return session.Dump(ms, ms.Process())
+	}
+	n := 4 + rng.Intn(5)
+	pick := make([][]string, n)
+	for g := range pick {
+		pick[g] = groups[rng.Intn(len(groups))]
+	}
+	pick[0] = groups[len(groups)-1]
+	got := make([]string, n)
+	start := make(chan struct{})
+	var wg sync.WaitGroup
+	for g := 0; g < n; g++ {
+		wg.Add(1)
+		go func(g int) {
+			defer wg.Done()
+			<-start
+			got[g] = build(pick[g])
+		}(g)
+	}
+	close(start)
+	wg.Wait()
+	v := &core.Verdict{OK: true, Class: "cold-start", NT: true, N: int64(2 * n)}
+	for g := 0; g < n; g++ {
+		if want := build(pick[g]); got[g] != want {
+			v.OK, v.Sig = false, "result-differs-from-sequential"
+			v.Detail = fmt.Sprintf("the pipeline over %v, run next to %d others as the first thing in the process, reads differently from the same pipeline run alone afterwards", pick[g], n-1)
+			break
+		}
+	}
+	return v
+}
+
 // buildRace builds the harness with the race detector.
 func buildRace(r *core.Run) string {
 	out := r.Out + "/verif-race"
@@ -608,10 +686,10 @@ func check(r *core.Run) {
 	r.Assumptions = []string{"the model sees the instrumented lock sections only; memory accesses between them are covered by the race detector on the stress runs", "a slow goroutine can only make a gated schedule less adversarial, never produce an illegal trace", "concurrent mutation of one set and Find paths that create rpc input/output are outside the claim"}
 	col := core.NewCollector()
 	cfgs := []string{"MCConc_2.cfg"}
-	nB, nR := 40, 24
+	nB, nR, nC := 40, 24, 8
 	if r.Tier == "thorough" {
 		cfgs = append(cfgs, "MCConc_3.cfg")
-		nB, nR = 400, 200
+		nB, nR, nC = 400, 200, 60
 	}
 	core.PoolSize = 6 // gated replays are timing sensitive: leave cores free
 	for _, cfg := range cfgs {
@@ -624,6 +702,8 @@ func check(r *core.Run) {
 		core.PoolBinary = bin
 		core.PoolEnv = []string{"GORACE=halt_on_error=1 exitcode=66"}
 		core.SubmitCollect(r, "conc", 'R', nR, nil)
+		// cold starts: independent pipelines as the first thing a process does, one process each
+		core.SubmitFresh(r, "conc", 'C', nC, 4)
 		core.PoolBinary, core.PoolEnv = "", nil
 	}
 }
